@@ -93,9 +93,12 @@ fn closedform(f: &Field, high: bool, kmax: usize, rmax: usize) -> bool {
         let w = w_m(f, m);
         // unit data sets: original i carries symbol `1` (Cantor index of the field's one) in slot i % 32 ... keep it simple: one encode per i
         for i in 0..k {
+            // the unit and a symbol whose two bytes are both non-zero and different (the code is linear, so G[j][i] * a is expected):
+            // with the unit alone (high byte 0 in the Cantor representation) a changed pairing of bytes into symbols would go unnoticed
             let one = f.from_poly[1];
+            let a: u16 = if (k + r + i) % 2 == 0 { one } else { 0xA5C3u16.wrapping_add((i as u16).wrapping_mul(0x0101)) | 0x0101 };
             let mut originals = vec![vec![0u8; 2]; k];
-            originals[i][0] = one as u8; originals[i][1] = (one >> 8) as u8;
+            originals[i][0] = a as u8; originals[i][1] = (a >> 8) as u8;
             let rec: Vec<Vec<u8>> = if high {
                 let mut e = HighRateEncoder::new(k, r, 2, NoSimd::new(), None).unwrap();
                 for o in &originals { e.add_original_shard(o).unwrap(); }
@@ -107,8 +110,9 @@ fn closedform(f: &Field, high: bool, kmax: usize, rmax: usize) -> bool {
             };
             for j in 0..r {
                 let got = rec[j][0] as u16 | ((rec[j][1] as u16) << 8);
-                let want = if high { f.mul(s_m(f, m, m + i), f.inv(f.mul(w, (j ^ (m + i)) as u16))) }
-                           else { f.mul(s_m(f, m, m + j), f.inv(f.mul(w, ((m + j) ^ i) as u16))) };
+                let g = if high { f.mul(s_m(f, m, m + i), f.inv(f.mul(w, (j ^ (m + i)) as u16))) }
+                        else { f.mul(s_m(f, m, m + j), f.inv(f.mul(w, ((m + j) ^ i) as u16))) };
+                let want = f.mul(g, a);
                 if got != want { println!("FAIL closedform {} k={} r={} i={} j={} got={} want={}", if high {"high"} else {"low"}, k, r, i, j, got, want); return false; }
                 n += 1;
             }
